@@ -12,9 +12,9 @@ from sv import core
 
 PROPERTY = "C14"
 GEN = ["Roc"]
-PROPS = ["ScoresVerif/Props/C14.lean"]
+PROPS = ["ScoresVerif/Props/C14.lean", "ScoresVerif/Props/C14Stretch.lean"]
 DRIVER_DEPS = ["ScoresVerif.Driver.C14"]
-AUDIT_FILES = ["ScoresVerif/Lemmas/Roc.lean", "ScoresVerif/Lemmas/RocMW1.lean", "ScoresVerif/Lemmas/RocMW.lean",
+AUDIT_FILES = ["ScoresVerif/Lemmas/C14Stretch.lean", "ScoresVerif/Lemmas/Roc.lean", "ScoresVerif/Lemmas/RocMW1.lean", "ScoresVerif/Lemmas/RocMW.lean",
                "ScoresVerif/Model/Roc.lean", "ScoresVerif/Spec/Roc.lean"]
 LEVEL = "proof"
 TRUSTED = ["hand-written model Model/Roc.lean of roc_curve_data -> binary_discretise(>=) -> POD/POFD -> -trapezoid; the POD/POFD maps, quotients, weighting/summation frame and the roc call site are regenerated from the source (tools/gen/Roc.py) and proved equal to the model, the rest is "
